@@ -13,7 +13,11 @@ byte-level model of the stream between the two Machines:
       byte offsets inside ciphertexts, several adversary moves);
   (c) every recorded trace validated by TLC against TransportTrace (ROT = 1000): error class, Flush count,
       buffered bytes, bytes in flight, nonces, key fingerprints <-> (key, epoch) bijection, payload hash;
-  (d) negative controls (a corrupted nonce, error class, key fingerprint).
+  (d) brontide.Conn on top (Write with chunking above 65535 bytes, Read through readBuf with small caller buffers,
+      underlying reads fragmented) - same traces, same judge; the named deviation ConnEmptyEOFQuirk is announced;
+  (e) negative controls (a corrupted nonce, payload hash, error class, key fingerprint).
+
+Mutation controls: mutations/C11/*.diff (run with VERIF_MUTATION=<diff> C11_SKIP_MC=1).
 """
 import copy
 import json
@@ -251,6 +255,22 @@ def write_scenarios(d):
             a, m, dd, size, v, k, o1, kind = e
             rows.append(dict(a=a, m=m, d=dd, kind=kind, size=size, v=v, k=k, o1=o1, o2=0, o3=0))
         core.write_ndjson(os.path.join(d, "b_%d.ndjson" % (900000 + i)), rows)
+    # every way of tampering with the handshake, each act x each kind, a replayed act one, the wrong static key
+    order = [("GenActOne", "A"), ("RecvActOne", "B"), ("GenActTwo", "B"), ("RecvActTwo", "A"), ("GenActThree", "A"),
+             ("RecvActThree", "B")]
+    cases = [(k, kind) for k in (1, 2, 3) for kind in (("ver", "ct", "tag") if k == 3 else ("ver", "eph", "badpt", "tag"))]
+    cases += [(1, "old"), (0, "wrong")]
+    for j, (k, kind) in enumerate(cases):
+        rows = []
+        for i, (a, m) in enumerate(order):
+            rows.append(dict(a=a, m=m, d="", kind=("wrong" if kind == "wrong" else "real") if a == "GenActOne" else "",
+                             size=0, v=0, k=0, o1=0, o2=0, o3=0))
+            if i == 2 * (k - 1) and k > 0:
+                rows.append(dict(a="OldActOne" if kind == "old" else "AlterAct", m="", d="",
+                                 kind="" if kind == "old" else kind, size=0, v=0, k=0, o1=0, o2=0, o3=0))
+            if (i == 2 * k - 1 and kind != "old") or (kind == "old" and i == 3) or (kind == "wrong" and i == 1):
+                break
+        core.write_ndjson(os.path.join(d, "b_%d.ndjson" % (910000 + j)), rows)
 
 
 def run(ck):
